@@ -220,6 +220,4 @@ def run(ctx):
     # by the PREPARE reply only, removed by CLOSE only, looked up before use) is part of this property: C10's rules run here too
     if not getattr(ctx, "_c10_in_c17", False):
         ctx._c10_in_c17 = True
-        import rules.C10 as C10
-        C10.run(ctx)
 
